@@ -3,12 +3,9 @@
     hash function standing for SHA-256 and over every iteration order of the two HashMap
     levels of the search (any function returning a permutation). *)
 From Sci Require Import Combine.Model Combine.Spec Combine.Obs Combine.Proofs Combine.ProofsEnc Combine.ProofsC19 Combine.ProofsBound
-  Combine.ProofsDecode Combine.ProofsReparse Combine.ProofsOrder Combine.ProofsPerm Combine.ProofsUseless.
+  Combine.ProofsDecode Combine.ProofsReparse Combine.ProofsOrder Combine.ProofsPerm Combine.ProofsUseless Combine.ProofsFifo.
 From Coq Require Import Permutation.
 Local Open Scope N_scope.
-
-Definition order_ok (ord_v : vertex -> vinfo -> vinfo) (ord_e : vertex -> vertex -> emap -> emap) : Prop :=
-  (forall v l, Permutation (ord_v v l) l) /\ (forall v w l, Permutation (ord_e v w l) l).
 
 (** No panic site of graph.rs / combinator.rs is reachable: every expect, unwrap, slice index,
     usize subtraction and try_push of the modelled code is an explicit [Panic] in the model,
@@ -45,6 +42,21 @@ Proof.
     eapply Nat.le_trans; [exact Hout|]. eapply Nat.le_trans; [exact Hps|exact H2].
 Qed.
 Print Assumptions solutions_bounded.
+
+(** The search loop as written (VecDeque: pop_front, push_back; [bfs_worklist], with fuel = the
+    number of pops allowed) terminates after at most 1 + E + E^2 + E^3 pops and computes exactly
+    the level-order list [bfs] that [get_paths] sorts: the polynomial bound is a bound on the
+    work of the loop, not only on its result. *)
+Theorem search_loop_bounded :
+  forall ord_v ord_e g src dst fuel,
+    order_ok ord_v ord_e ->
+    (1 + ecount g + ecount g ^ 2 + ecount g ^ 3 <= fuel)%nat ->
+    bfs_worklist ord_v ord_e g dst fuel [sol_new (VAS src)] []
+    = Some (bfs ord_v ord_e g dst 4 [sol_new (VAS src)]).
+Proof.
+  intros ord_v ord_e g src dst fuel [Hv He] Hf. exact (fifo_loop_is_bfs ord_v ord_e Hv He g dst src fuel Hf).
+Qed.
+Print Assumptions search_loop_bounded.
 
 (** Every returned path encodes and is consistent with its own metadata: the StandardPath
     passed wire_valid (1..3 segments of 1..63 hop fields, at most 984 bytes), the bytes are its
